@@ -209,7 +209,12 @@ def tree_choose(
         # - catch incompatible types / shapes in the result
         # - in the case of compatible types requiring casts (like bool => int),
         #   result's dtype tells us the final type.
-        result = jnp.choose(idx, vs, mode="wrap")
+        # A vectorized index selects along the leading axes of the leaves.
+        idx_ = idx
+        if not isinstance(idx, int) and jnp.ndim(idx) > 0:
+            extra = max(jnp.ndim(v) for v in vs) - jnp.ndim(idx)
+            idx_ = jnp.reshape(idx, jnp.shape(idx) + (1,) * max(extra, 0))
+        result = jnp.choose(idx_, vs, mode="wrap")
         if isinstance(idx, int):
             return jnp.asarray(vs[idx % len(vs)], dtype=result.dtype)
         else:
